@@ -1,14 +1,30 @@
 #!/bin/bash
-# usage: try_patch.sh <patch> <ID> [<ID>...]   applies the patch to /repo, runs the quick checks, undoes it
-patch=$1; shift
+# usage: try_patch.sh <patch> <ID> [<ID>...]
+# Runs the quick checks against /repo with the patch applied. Default: the patch is applied to a scratch copy of
+# /repo's current working tree (outside /repo and /verif) and the checks read that copy through VERIF_REPO, so that
+# /repo itself - which background sweeps rebuild from - is never modified. INPLACE=1 does it the way a third party
+# would: git -C /repo apply, run, git -C /repo checkout -- .
+patch=$(readlink -f "$1"); shift
 # runs against a modified tree must not overwrite the committed evidence / replays
 export VERIF_EVIDENCE_DIR=/tmp/verif-mutant-out/evidence VERIF_REPLAY_DIR=/tmp/verif-mutant-out/replays
-cd /repo || exit 2
-if [ -n "$(git status --porcelain)" ]; then echo "/repo not clean"; exit 2; fi
-git apply --3way "$patch" 2>/dev/null || git apply "$patch" || { echo "patch does not apply"; git checkout -- . ; exit 2; }
-git reset -q
-for id in "$@"; do
-  (cd /verif && ./check "$id" --tier "${TIER:-quick}" 2>&1 | grep -E "^(VIOLATION|HELD|VIOLATED|INCONCLUSIVE|KNOWN|  signature)" | head -${LINES_MAX:-12})
-done
-git checkout -- . ; git clean -fdq
-git status --porcelain | head
+run_checks() {
+  for id in "$@"; do
+    (cd /verif && ./check "$id" --tier "${TIER:-quick}" 2>&1 | grep -E "^(VIOLATION|HELD|VIOLATED|INCONCLUSIVE|KNOWN|  signature)" | head -${LINES_MAX:-12})
+  done
+}
+if [ -n "$INPLACE" ]; then
+  cd /repo || exit 2
+  if [ -n "$(git status --porcelain)" ]; then echo "/repo not clean"; exit 2; fi
+  git apply --3way "$patch" 2>/dev/null || git apply "$patch" || { echo "patch does not apply"; git checkout -- . ; exit 2; }
+  git reset -q
+  run_checks "$@"
+  git checkout -- . ; git clean -fdq
+  git status --porcelain | head
+  exit 0
+fi
+copy=$(mktemp -d /dev/shm/mutrepo.XXXXXX)
+trap 'rm -rf "$copy"' EXIT
+rsync -a --exclude .git /repo/ "$copy/" || exit 2
+(cd "$copy" && git init -q . && git apply "$patch") || { echo "patch does not apply"; exit 2; }
+rm -rf "$copy/.git"
+VERIF_REPO="$copy" run_checks "$@"
